@@ -1907,8 +1907,12 @@ class _Simu(_IObserver, _params.Updatable, ABC):
 
         if self.isNonLinear:
             # dofsValues = dofsValues - u
-            # set incremental dof values
-            dofsValues -= self._Solver_Get_Newton_Raphson_current_solution()[dofs]
+            # set incremental dof values. The values entered several times on a dof are summed
+            # afterwards, so the current solution is shared between the entries of that dof.
+            count = np.bincount(dofs)[dofs]
+            dofsValues -= (
+                self._Solver_Get_Newton_Raphson_current_solution()[dofs] / count
+            )
 
         if algo == AlgoType.euler_explicit:
             # the solve variable is a^n: constrained DOFs have zero acceleration
